@@ -34,7 +34,7 @@ PROPS = {
     "C07": {"families": [("update", None, 6000)], "obligations": P("Props.C07") + TABLE_TIES + EVAL_TIES, "rule": EXPR_RULE},
     "C08": {"families": [("hist", "fail", 600)], "obligations": P("Props.C08", "Props.Refine"), "rule": HIST_RULE},
     "C09": {"families": [("match", None, 3000), ("update", None, 3000), ("garbage", None, 4000), ("hist", "fail", 300)], "obligations": P("Props.C09") + TABLE_TIES, "rule": EXPR_RULE},
-    "C10": {"families": [("hist", "values", 500), ("poke", None, 80)], "obligations": P("Props.C10", "Props.Refine"), "rule": HIST_RULE},
+    "C10": {"families": [("hist", "values", 500), ("poke", None, 80), ("match", None, 1500)], "obligations": P("Props.C10", "Props.Refine"), "rule": HIST_RULE},
     "C11": {"families": [("race", None, 1)], "obligations": P("Props.C11") + [(TL, "Minidyn.Tie.wellLocked_generated_v1"), (TL, "Minidyn.Tie.wellLocked_generated_v2"),
                                                               (TL, "Minidyn.Tie.wellLocked_nonvacuous")], "rule": "pairs of client methods run concurrently under the race detector"},
     "C12": {"families": [("hist", "numbers", 400), ("num", None, 3000), ("update", None, 2500), ("match", None, 1500)], "obligations": P("Props.C12"), "rule": HIST_RULE},
